@@ -441,6 +441,10 @@ def check_solves(c, ps, bs, t, nodes, M, out):
                     out['singular'] = out.get('singular', 0) + 1
                     continue
                 xs = pad(nb, lo, sol)
+                if not (np.all(np.isfinite(cfp)) and np.all(np.isfinite(php))):
+                    _fail(out, 'DiffEqSolver.solve:%s:nonfinite' % ('discrete' if kind == 'd' else 'function'),
+                          'mode %d: the exact Galerkin system has a solution, the code returns non-finite coefficients / values' % m)
+                    continue
                 cfe = fr(cfp)
                 out['n_or'] += 3
                 # residual of the code's coefficients in the exact Galerkin system
@@ -584,10 +588,14 @@ def case_stage(c):
     if not blocking:
         r, first = check_solves(c, ps, bs, t, nodes, M, out)
         first['M'] = M
-        if c.get('batch'):
-            check_batch(c, ps, bs, t, r, first, out)
-        if c.get('func_E'):
-            check_func_E(c, ps, bs, t, r, out)
+        for flag, fn, args in (('batch', check_batch, (c, ps, bs, t, r, first, out)), ('func_E', check_func_E, (c, ps, bs, t, r, out))):
+            if c.get(flag):
+                try:
+                    fn(*args)
+                except core.BrokenCheck:
+                    raise
+                except Exception as e:      # raised inside solveEquation / solveEquationForFunction: an outcome of the code
+                    _fail(out, 'DiffEqSolver.solveEquation:exception', '%s: %s: %s' % (flag, type(e).__name__, str(e)[:150]))
     if c['tier_model']:
         out['model_line'] = ('gk.case %d %d %d | %s | %s | ' % (t['p'], t['nc'], t['nq'], ' '.join(map(str, c['lN'])), ' '.join(map(str, c['uN'])))
                              + model_head(t) + ' |  | ' + out.get('rs', '') + ''.join(' | ' + it for it in out.get('solve_items', [])))
@@ -719,11 +727,21 @@ def manufactured_stage(c, out):
     need = max(2 * p + 2, len(f) + p + 1)          # highest degree of an integrand
     qdeg = need + 1
     Bf, Cf, Df, ff_ = fl(B), fl(C), fl(D), fl(f)
-    ps = DiffEqSolver(qdeg, bs, bs.nbasis, c['ntheta'], lNeumannIdx=list(c['lN']), uNeumannIdx=list(c['uN']),
-                      drFactor=lambda r: Bf[0] + Bf[1] * r, rFactor=lambda r: Cf[0], ddThetaFactor=lambda r: Df[1] * r)
+    try:
+        ps = DiffEqSolver(qdeg, bs, bs.nbasis, c['ntheta'], lNeumannIdx=list(c['lN']), uNeumannIdx=list(c['uN']),
+                          drFactor=lambda r: Bf[0] + Bf[1] * r, rFactor=lambda r: Cf[0], ddThetaFactor=lambda r: Df[1] * r)
+    except Exception as e:
+        _fail(out, 'DiffEqSolver.__init__:exception', 'manufactured: %s: %s' % (type(e).__name__, str(e)[:200]))
+        out['skipped'] = True
+        return out
     r = np.array(bs.greville, dtype=float)
     I = int_modes(c['ntheta']).index(c['m'])
-    cf, ph, _ = code_solve_one(ps, I, None, r, func=lambda x: poly_eval(ff_, x))
+    try:
+        cf, ph, _ = code_solve_one(ps, I, None, r, func=lambda x: poly_eval(ff_, x))
+    except Exception as e:
+        _fail(out, 'DiffEqSolver.solveEquationForFunction:exception', 'manufactured: %s: %s' % (type(e).__name__, str(e)[:150]))
+        out['skipped'] = True
+        return out
     exact = np.array([float(poly_eval(phi, ff(x))) for x in r])
     t = tables(dict(c, funcs={'A': 'default', 'B': 'default', 'C': 'default', 'D': 'default', 'E': 'default'}), ps)
     nodes = oracle_nodes(t)
